@@ -329,6 +329,26 @@ def wkc_sites():
                 if ".ignore_wkc()" in head[head.rfind(";") + 1:]:
                     continue          # already listed through its ignore_wkc
                 sites.append((rel, enclosing(m.start()), "send"))
+            # frame-level users: a function that takes the datagrams out of a received frame itself
+            # (into_pdu_iter / first_pdu) and never calls wkc()/maybe_wkc() on them
+            if rel.startswith("src/pdu_loop"):
+                continue
+            for k, (st, name) in enumerate(fns):
+                b = txt.find("{", st)
+                if b < 0 or (k + 1 < len(fns) and b > fns[k + 1][0]):
+                    continue
+                depth, j = 0, b
+                while j < len(txt):
+                    if txt[j] == "{":
+                        depth += 1
+                    elif txt[j] == "}":
+                        depth -= 1
+                        if depth == 0:
+                            break
+                    j += 1
+                body = txt[b:j]
+                if re.search(r"\.into_pdu_iter\(\)|\.first_pdu\(", body) and not re.search(r"\.(maybe_)?wkc\(", body):
+                    sites.append((rel, name, "frame-level+no-wkc-check"))
     return sorted(set(sites))
 
 
